@@ -9,11 +9,16 @@ package broker
 // required permission, and its target covers the channel.
 
 import (
+	"io"
+
+	"github.com/emitter-io/emitter/internal/errors"
 	"github.com/emitter-io/emitter/internal/event"
 	"github.com/emitter-io/emitter/internal/message"
+	"github.com/emitter-io/emitter/internal/network/mqtt"
 	"github.com/emitter-io/emitter/internal/provider/contract"
 	"github.com/emitter-io/emitter/internal/provider/usage"
 	"github.com/emitter-io/emitter/internal/security"
+	"github.com/emitter-io/emitter/internal/service"
 	"github.com/emitter-io/emitter/internal/service/presence"
 	vs "github.com/emitter-io/emitter/internal/verifspec"
 )
@@ -161,4 +166,196 @@ func post_NotifyUnsubscribe(s *Service, sub message.Subscriber, ev *event.Subscr
 		return one
 	}
 	return n < 0
+}
+
+// ---------------------------------------------------------------------------------------------------------
+// Serving one packet (properties C02, C07, C08): what Conn does with each decoded MQTT packet. The pub/sub
+// handlers, the ack encoders (their wire layout is C16's subject) and the per-connection bookkeeping are recorded
+// calls; the contract says which of them happen, in which order, with what.
+
+//@ assume (*github.com/emitter-io/emitter/internal/message.Counters).IncrementOnce iface
+//@ assume (*github.com/emitter-io/emitter/internal/message.Counters).Decrement iface
+//@ assume (*Conn).MeasureElapsed iface
+//@ assume (*Conn).notifyError iface
+//@ assume (*Conn).onConnect iface
+//@ assume (*github.com/emitter-io/emitter/internal/service/pubsub.Service).OnSubscribe iface
+//@ assume (*github.com/emitter-io/emitter/internal/service/pubsub.Service).OnUnsubscribe iface
+//@ assume (*github.com/emitter-io/emitter/internal/service/pubsub.Service).OnPublish iface
+//@ assume (*github.com/emitter-io/emitter/internal/network/mqtt.Connack).EncodeTo iface
+//@ assume (*github.com/emitter-io/emitter/internal/network/mqtt.Suback).EncodeTo iface
+//@ assume (*github.com/emitter-io/emitter/internal/network/mqtt.Unsuback).EncodeTo iface
+//@ assume (*github.com/emitter-io/emitter/internal/network/mqtt.Puback).EncodeTo iface
+//@ assume (*github.com/emitter-io/emitter/internal/network/mqtt.Pingresp).EncodeTo iface
+//@ assume (*github.com/emitter-io/emitter/internal/network/mqtt.Publish).EncodeTo iface
+
+// The bookkeeping answer a subscribe / unsubscribe rests on is exactly Counters.IncrementOnce / Decrement (proved
+// against the abstract filter->count map under C02) on THIS connection's counters, asked once.
+// @ verify (*Conn).CanSubscribe pre=pre_Conn_subs post=post_Conn_CanSubscribe props=C02,C08
+func pre_Conn_subs(c *Conn) bool { return c != nil && c.subs != nil }
+func post_Conn_CanSubscribe(c *Conn, ssid message.Ssid, channel []byte, res0 bool) bool {
+	i := vs.TraceFind("IncrementOnce")
+	return i >= 0 && vs.TraceLen() == 1 && vs.TraceArg[*message.Counters](i, 0) == c.subs && res0 == vs.TraceRet[bool](i, 0) &&
+		specSameWords(vs.TraceArg[message.Ssid](i, 1), ssid) && vs.SameBytes(vs.TraceArg[[]byte](i, 2), channel)
+}
+
+// @ verify (*Conn).CanUnsubscribe pre=pre_Conn_subs post=post_Conn_CanUnsubscribe props=C02,C08
+func post_Conn_CanUnsubscribe(c *Conn, ssid message.Ssid, res0 bool) bool {
+	i := vs.TraceFind("Decrement")
+	return i >= 0 && vs.TraceLen() == 1 && vs.TraceArg[*message.Counters](i, 0) == c.subs && res0 == vs.TraceRet[bool](i, 0) &&
+		specSameWords(vs.TraceArg[message.Ssid](i, 1), ssid)
+}
+
+func specSameWords(a, b message.Ssid) bool {
+	return len(a) == len(b) && vs.Forall(0, len(a), func(i int) bool { return a[i] == b[i] })
+}
+
+// Send: a message reaches the client as ONE QoS-0 PUBLISH whose topic is the message's channel and whose payload
+// is the message's payload - both unchanged (C02: "with channel (key stripped) and payload unchanged").
+// @ verify (*Conn).Send pre=pre_Conn_Send post=post_Conn_Send props=C02
+func pre_Conn_Send(c *Conn, m *message.Message) bool { return c != nil && m != nil && c.socket != nil }
+func post_Conn_Send(c *Conn, m *message.Message, res0 error) bool {
+	e := vs.TraceFind("Publish).EncodeTo")
+	if e < 0 || vs.TraceCount("Publish).EncodeTo") != 1 {
+		return false
+	}
+	p := vs.TraceArg[*mqtt.Publish](e, 0)
+	return p.QOS == 0 && !p.DUP && !p.Retain && specSameView(p.Topic, m.Channel) && specSameView(p.Payload, m.Payload) &&
+		res0 == vs.TraceRet[error](e, 1)
+}
+func specSameView(a, b []byte) bool {
+	return len(a) == len(b) && (len(a) == 0 || vs.OffsetIn(a, b) == 0)
+}
+
+// onReceive, packet by packet.
+// @ verify (*Conn).onReceive pre=pre_onReceive post=post_onReceive_subscribe,post_onReceive_unsubscribe,post_onReceive_publish,post_onReceive_other props=C02,C07,C08
+// @ loop (*Conn).onReceive 0 unroll 2 bounded
+// @ loop (*Conn).onReceive 1 unroll 2 bounded
+func specKind(msg mqtt.Message) uint8 { // the packet type, read off the dynamic type
+	switch msg.(type) {
+	case *mqtt.Connect:
+		return mqtt.TypeOfConnect
+	case *mqtt.Subscribe:
+		return mqtt.TypeOfSubscribe
+	case *mqtt.Unsubscribe:
+		return mqtt.TypeOfUnsubscribe
+	case *mqtt.Pingreq:
+		return mqtt.TypeOfPingreq
+	case *mqtt.Disconnect:
+		return mqtt.TypeOfDisconnect
+	case *mqtt.Publish:
+		return mqtt.TypeOfPublish
+	}
+	return 0
+}
+func pre_onReceive(c *Conn, msg mqtt.Message) bool {
+	// Type() of a packet is the constant of its Go type (mqtt's Type methods return constants)
+	return c != nil && c.service != nil && c.service.pubsub != nil && c.socket != nil && msg != nil &&
+		specKind(msg) != 0 && msg.Type() == specKind(msg) && specNonNil(msg)
+}
+func specNonNil(msg mqtt.Message) bool {
+	switch m := msg.(type) {
+	case *mqtt.Connect:
+		return m != nil
+	case *mqtt.Subscribe: // (and the type invariant of the decoded topic slices)
+		return m != nil && vs.Forall(0, len(m.Subscriptions), func(k int) bool { return vs.WellFormed(m.Subscriptions[k].Topic) })
+	case *mqtt.Unsubscribe:
+		return m != nil && vs.Forall(0, len(m.Topics), func(k int) bool { return vs.WellFormed(m.Topics[k].Topic) })
+	case *mqtt.Publish:
+		return m != nil
+	}
+	return true
+}
+
+// SUBSCRIBE: OnSubscribe once per requested filter, in order, on this connection with that filter's text; a
+// failed one is answered with an error message and the 0x80 return code, an accepted one with its requested QoS;
+// ONE SUBACK, carrying the packet id, goes out after all of them (so whatever OnSubscribe replays precedes it).
+func post_onReceive_subscribe(c *Conn, msg mqtt.Message, res0 error) bool {
+	p, ok := msg.(*mqtt.Subscribe)
+	if !ok {
+		return vs.TraceCount("OnSubscribe") == 0 && vs.TraceCount("Suback).EncodeTo") == 0
+	}
+	n := vs.TraceCount("OnSubscribe") // (a constant of the explored path; it must be the number of requested filters)
+	a := vs.TraceFind("Suback).EncodeTo")
+	if len(p.Subscriptions) != n || a < 0 || vs.TraceCount("Suback).EncodeTo") != 1 {
+		return false
+	}
+	ack := vs.TraceArg[*mqtt.Suback](a, 0)
+	return ack.MessageID == p.MessageID && len(ack.Qos) == n && res0 == vs.TraceRet[error](a, 1) &&
+		vs.Forall(0, n, func(k int) bool {
+			o := vs.TraceFindNth("OnSubscribe", k)
+			failed := vs.TraceRet[*errors.Error](o, 0) != nil
+			return o < a && vs.TraceArg[service.Conn](o, 1) == service.Conn(c) && vs.SameBytes(vs.TraceArg[[]byte](o, 2), p.Subscriptions[k].Topic) &&
+				((failed && ack.Qos[k] == 0x80) || (!failed && ack.Qos[k] == p.Subscriptions[k].Qos))
+		}) && vs.TraceCount("notifyError") == specFailures("OnSubscribe", n)
+}
+func specFailures(name string, n int) int { // how many of the first n calls of the handler returned an error
+	k := 0
+	for i := 0; i < 2; i++ {
+		if i < n && vs.TraceRet[*errors.Error](vs.TraceFindNth(name, i), 0) != nil {
+			k++
+		}
+	}
+	return k
+}
+
+func post_onReceive_unsubscribe(c *Conn, msg mqtt.Message, res0 error) bool {
+	p, ok := msg.(*mqtt.Unsubscribe)
+	if !ok {
+		return vs.TraceCount("OnUnsubscribe") == 0 && vs.TraceCount("Unsuback).EncodeTo") == 0
+	}
+	n := vs.TraceCount("OnUnsubscribe")
+	a := vs.TraceFind("Unsuback).EncodeTo")
+	if len(p.Topics) != n || a < 0 || vs.TraceCount("Unsuback).EncodeTo") != 1 {
+		return false
+	}
+	return vs.TraceArg[*mqtt.Unsuback](a, 0).MessageID == p.MessageID && res0 == vs.TraceRet[error](a, 1) &&
+		vs.Forall(0, n, func(k int) bool {
+			o := vs.TraceFindNth("OnUnsubscribe", k)
+			return o < a && vs.TraceArg[service.Conn](o, 1) == service.Conn(c) && vs.SameBytes(vs.TraceArg[[]byte](o, 2), p.Topics[k].Topic)
+		}) && vs.TraceCount("notifyError") == specFailures("OnUnsubscribe", n)
+}
+
+// PUBLISH: OnPublish once with the packet as received; an error is reported to the client once; a PUBACK with the
+// packet id goes out iff QoS > 0, after the handler.
+func post_onReceive_publish(c *Conn, msg mqtt.Message, res0 error) bool {
+	p, ok := msg.(*mqtt.Publish)
+	if !ok {
+		return vs.TraceCount("OnPublish") == 0 && vs.TraceCount("Puback).EncodeTo") == 0
+	}
+	o := vs.TraceFind("OnPublish")
+	if o < 0 || vs.TraceCount("OnPublish") != 1 || vs.TraceArg[*mqtt.Publish](o, 2) != p || vs.TraceArg[service.Conn](o, 1) != service.Conn(c) {
+		return false
+	}
+	failed := vs.TraceRet[*errors.Error](o, 0) != nil
+	if vs.TraceCount("notifyError") != specB2I(failed) {
+		return false
+	}
+	a := vs.TraceFind("Puback).EncodeTo")
+	if p.Header.QOS == 0 {
+		return a < 0 && res0 == nil
+	}
+	return a > o && vs.TraceCount("Puback).EncodeTo") == 1 && vs.TraceArg[*mqtt.Puback](a, 0).MessageID == p.MessageID && res0 == vs.TraceRet[error](a, 1)
+}
+func specB2I(b bool) int {
+	if b {
+		return 1
+	}
+	return 0
+}
+
+// DISCONNECT ends the session (io.EOF takes Process to its deferred Close); PINGREQ is answered with PINGRESP;
+// CONNECT is answered with a CONNACK whose code is 0 exactly when onConnect accepted.
+func post_onReceive_other(c *Conn, msg mqtt.Message, res0 error) bool {
+	switch msg.(type) {
+	case *mqtt.Disconnect:
+		return res0 == io.EOF && vs.TraceCount("EncodeTo") == 0
+	case *mqtt.Pingreq:
+		a := vs.TraceFind("Pingresp).EncodeTo")
+		return a >= 0 && vs.TraceCount("EncodeTo") == 1 && res0 == vs.TraceRet[error](a, 1)
+	case *mqtt.Connect:
+		o, a := vs.TraceFind("onConnect"), vs.TraceFind("Connack).EncodeTo")
+		return o >= 0 && a > o && vs.TraceCount("EncodeTo") == 1 && res0 == vs.TraceRet[error](a, 1) &&
+			(vs.TraceArg[*mqtt.Connack](a, 0).ReturnCode == 0) == vs.TraceRet[bool](o, 0)
+	}
+	return true
 }
